@@ -340,6 +340,30 @@ func (h *HistGen) query(coll string, allowWindow, allowSort bool) QSpec {
 	q := QSpec{Coll: coll}
 	h.cur = h.colls[coll]
 	defer func() { h.cur = nil }()
+	if h.cur != nil && len(h.cur.indexes) > 0 && g.Chance(0.10) {
+		// negations over nested connectives of comparisons on one indexed field (the planner pushes them inward)
+		f := pickOf(g, h.cur.indexes)
+		cmp := func() *Crit {
+			return &Crit{Kind: "cmp", Op: pickOf(g, []string{"OGt", "OGtEq", "OLt", "OLtEq", "OEq"}), Field: f, Val: Operand{Lit: int(g.Intn(8))}}
+		}
+		var build func(d int) *Crit
+		build = func(d int) *Crit {
+			if d == 0 || g.Chance(0.3) {
+				return cmp()
+			}
+			switch g.Intn(3) {
+			case 0:
+				return &Crit{Kind: "and", A: build(d - 1), B: build(d - 1)}
+			case 1:
+				return &Crit{Kind: "or", A: build(d - 1), B: build(d - 1)}
+			}
+			return &Crit{Kind: "not", A: build(d - 1)}
+		}
+		c := &Crit{Kind: "not", A: &Crit{Kind: pickOf(g, []string{"or", "and"}), A: build(2), B: build(2)}}
+		c.countOps(h.crits)
+		q.Steps = append(q.Steps, QStep{Kind: "where", C: c})
+		return q
+	}
 	if h.cur != nil && len(h.cur.indexes) > 0 && allowSort && g.Chance(0.22) {
 		// a comparison on an indexed field, sorted by that field first (index range scan + elided or kept sort)
 		f := pickOf(g, h.cur.indexes)
